@@ -196,3 +196,121 @@ func HasRequired(md protoreflect.MessageDescriptor) bool {
 	reqCache.Store(md.FullName(), r)
 	return r
 }
+
+var unkCache sync.Map
+
+// KeepsUnknown reports whether every message reachable from a fresh message
+// of this type stores unknown fields (old generated code without
+// XXX_unrecognized and some hand-written messages silently drop them).
+func KeepsUnknown(m protoreflect.Message) bool {
+	return keepsUnknown(m, map[protoreflect.FullName]bool{})
+}
+
+func keepsUnknown(m protoreflect.Message, seen map[protoreflect.FullName]bool) bool {
+	md := m.Descriptor()
+	if v, ok := unkCache.Load(md.FullName()); ok {
+		return v.(bool)
+	}
+	if seen[md.FullName()] {
+		return true
+	}
+	seen[md.FullName()] = true
+	ok := true
+	probe := m.New()
+	probe.SetUnknown(protoreflect.RawFields{0x98, 0x06, 0x01})
+	if len(probe.GetUnknown()) == 0 {
+		ok = false
+	}
+	fds := md.Fields()
+	for i := 0; ok && i < fds.Len(); i++ {
+		fd := fds.Get(i)
+		if fd.Message() == nil {
+			continue
+		}
+		var sub protoreflect.Message
+		switch {
+		case fd.IsMap():
+			if fd.MapValue().Message() == nil {
+				continue
+			}
+			sub = m.New().NewField(fd).Map().NewValue().Message()
+		case fd.IsList():
+			sub = m.New().NewField(fd).List().NewElement().Message()
+		default:
+			sub = m.New().NewField(fd).Message()
+		}
+		if !keepsUnknown(sub, seen) {
+			ok = false
+		}
+	}
+	unkCache.Store(md.FullName(), ok)
+	return ok
+}
+
+var irregCache sync.Map
+
+// InvolvesIrregular reports whether md reaches a hand-written aberrant message.
+func InvolvesIrregular(md protoreflect.MessageDescriptor) bool {
+	if v, ok := irregCache.Load(md.FullName()); ok {
+		return v.(bool)
+	}
+	seen := map[protoreflect.FullName]bool{}
+	var walk func(md protoreflect.MessageDescriptor) bool
+	walk = func(md protoreflect.MessageDescriptor) bool {
+		if seen[md.FullName()] {
+			return false
+		}
+		seen[md.FullName()] = true
+		if strings.HasPrefix(string(md.FullName()), "goproto.proto.thirdparty") {
+			return true
+		}
+		fds := md.Fields()
+		for i := 0; i < fds.Len(); i++ {
+			if m := fds.Get(i).Message(); m != nil && walk(m) {
+				return true
+			}
+		}
+		return false
+	}
+	r := walk(md)
+	irregCache.Store(md.FullName(), r)
+	return r
+}
+
+// LazyFields lists the fields of md that the opaque implementation decodes
+// lazily (option lazy = true on a singular message field of an opaque or
+// hybrid generated type).
+func LazyFields(mt protoreflect.MessageType) []protoreflect.FieldDescriptor {
+	md := mt.Descriptor()
+	var out []protoreflect.FieldDescriptor
+	// only the opaque layout has the lazy machinery: detect through the
+	// file's Go API level via package naming of the test protos
+	p := string(md.ParentFile().Path())
+	if !(strings.Contains(p, "opaque") || strings.Contains(p, "hybrid") || strings.Contains(p, "lazy") || strings.Contains(p, "mixed")) {
+		return nil
+	}
+	fds := md.Fields()
+	for i := 0; i < fds.Len(); i++ {
+		fd := fds.Get(i)
+		if l, ok := fd.(interface{ IsLazy() bool }); ok && l.IsLazy() && fd.Message() != nil && !fd.IsList() && !fd.IsMap() {
+			out = append(out, fd)
+		}
+	}
+	return out
+}
+
+var lazyTypesOnce sync.Once
+var lazyTypes []protoreflect.MessageType
+
+// LazyTypes lists corpus types that have at least one lazily decoded field
+// (verified dynamically by the callers through the lazy hook counters).
+func LazyTypes() []protoreflect.MessageType {
+	lazyTypesOnce.Do(func() {
+		for _, mt := range AllTypes() {
+			if len(LazyFields(mt)) > 0 && !InvolvesMessageSet(mt.Descriptor()) {
+				lazyTypes = append(lazyTypes, mt)
+			}
+		}
+	})
+	return lazyTypes
+}
